@@ -100,13 +100,11 @@ package mvp6_0
 //@   loop 1: step !(f && (!prev(flush) || fp < prev(from))) ==> from == prev(from) && pc == prev(pc)
 //@   loop 1: step flush == (prev(flush) || f)
 //@   loop 2: invariant cycle >= 1 && wired(m)
-//@   -- (C09; F20, fixed) at `ret` the units still busy with older instructions are run to completion
-//@   -- before the write-back drain (loops 3, 4). That loop 3 is left with every unit idle is NOT claimed
-//@   -- here: the merge of the `continue` path with the havoc of executeUnit.cycle loses the idle facts in
-//@   -- govc (an incompleteness of the state merge after a total havoc); the witness case lw-ret@mvp6-0
-//@   -- and the same clause on MVP-6.1..6.3 stand for it
-//@   loop 3: invariant cycle >= 1 && wired(m)
-//@   loop 4: invariant cycle >= 1 && wired(m)
+//@   -- (C09; F20, fixed) at `ret` the units still busy with older instructions are run
+//@   -- to completion before the write-back drain: loop 3 is left only with every execute unit idle
+//@   loop 3: invariant cycle >= 1 && wired(m) && (!busy ==> executeUnitsIdle(m))
+//@   loop 3: exit executeUnitsIdle(m)
+//@   loop 4: invariant cycle >= 1 && wired(m) && (!busy ==> (forall j :: 0 <= j && j < _idx4 ==> m.executeUnits[j].coroutine == nil))
 //@   loop 5: invariant cycle >= 1 && wired(m)
 //@   loop 6: invariant cycle >= 1 && wired(m)
 //@   loop 7: invariant cycle >= 1 && wired(m) && connected(m.writeBus, cycle + 1)
